@@ -39,7 +39,7 @@ def step : Sexp → Option Sexp
       let ns ← mapM' decNode nodes
       let b := body.toList
       let kn := list [atom "known", ofBool (KnownNonLower b), ofBool (KnownLiteral b), ofBool (KnownUnparsed b),
-                      ofBool (KnownMixed ns), ofBool (KnownSeveral ns)]
+                      ofBool (KnownMixed ns), ofBool (KnownSeveral ns), ofBool (KnownSpan ns)]
       match detect ns with
       | none => pure (list [atom "error", atom "indexerror"])
       | some rs =>
